@@ -19,10 +19,23 @@ VERIF = os.path.dirname(os.path.dirname(os.path.dirname(os.path.abspath(__file__
 REPO = "/repo"
 
 
+HEAD = None
+
+
 def make_copy():
+    """A scratch copy of /repo's committed tree (HEAD at the time the selftest started): immune to edits of the working tree
+    made while the selftest runs. Falls back to the working tree when /repo is not a git checkout."""
+    global HEAD
     d = tempfile.mkdtemp(prefix="prql-selftest-")
-    subprocess.run(["rsync", "-a", "--exclude", "/target", "--exclude", ".git", "--exclude", "node_modules",
-                    REPO + "/", d + "/"], check=True)
+    if HEAD is None:
+        r = subprocess.run(["git", "-C", REPO, "rev-parse", "HEAD"], stdout=subprocess.PIPE, stderr=subprocess.DEVNULL, text=True)
+        HEAD = r.stdout.strip() if r.returncode == 0 else ""
+    if HEAD:
+        a = subprocess.Popen(["git", "-C", REPO, "archive", HEAD], stdout=subprocess.PIPE)
+        subprocess.run(["tar", "-x", "-C", d], stdin=a.stdout, check=True)
+        a.wait()
+    else:
+        subprocess.run(["rsync", "-a", "--exclude", "/target", "--exclude", ".git", "--exclude", "node_modules", REPO + "/", d + "/"], check=True)
     return d
 
 
